@@ -129,7 +129,8 @@ type GenCtx struct {
 	// Exotic adds constructs whose value the reference evaluator does not
 	// define (substr, JSON access, distances, conversions of arbitrary text,
 	// row-dependent divisors, invalid patterns): differential checks only
-	Exotic bool
+	Exotic       bool
+	MixedNumeric bool
 	// RefBias: percentage of expression draws that use an alias of the wanted
 	// type when one is in scope
 	RefBias int
@@ -525,7 +526,7 @@ func (c *GenCtx) exoticText(t *rapid.T, depth int) *Node {
 	case 1:
 		return Call("str", c.GenFloat(t, depth-1))
 	case 2:
-		n := Field(Call("json", c.fieldOrLit(t)), rapid.SampledFrom([]string{"a", "s", "arr", "o", "zz"}).Draw(t, "jsonKey"))
+		n := Field(Call("json", c.fieldOrLit(t)), rapid.SampledFrom([]string{"a", "s", "arr", "o", "b", "zz"}).Draw(t, "jsonKey"))
 		if rapid.Bool().Draw(t, "jsonDeep") {
 			if rapid.Bool().Draw(t, "jsonIdx") {
 				return Index(n, int64(rapid.IntRange(0, 2).Draw(t, "jsonIdxN")))
